@@ -198,7 +198,16 @@ def t_wal(ctx):
                 ctx.check('C17.line_faithful', False, bus=bn, ev=lab, exc=repr(ex)[:200])
 
 
-TEMPLATES = {'s1.wal': t_wal}
+from ..scenlib import t_tree
+from .. import scenlib as S
+from ._common import mk
+TEMPLATES = {'s1.wal': t_wal, 'tree': t_tree}
+
+
+def _with_wal(cfg, buses):
+    cfg = dict(cfg)
+    cfg['wal'] = list(buses)
+    return cfg
 
 
 def jobs(tier):
@@ -209,6 +218,9 @@ def jobs(tier):
         Job('C17', 's1.wal', t_wal, dict(topo='parallel', faults=False), witnesses=('payload round-trip',)),
         Job('C17', 's1.wal', t_wal, dict(topo='nested', faults=False, unserialisable=True), witnesses=('payload round-trip',)),
     ]
+    out += mk('C17', 'tree/fw_late_await', _with_wal(S.fw_late_await(), ['A', 'B']), witnesses=('wal written',))
+    out += mk('C17', 'tree/fw_chain3', _with_wal(S.forward_chain(3, topo='chain', second_event=True), ['A', 'B', 'C']), witnesses=('wal written',))
+    out += mk('C17', 'tree/child_await', _with_wal(S.child('await', k=1), ['A']), witnesses=('wal written',))
     if tier == 'thorough':
         out.append(Job('C17', 's1.wal', t_wal, dict(topo='forward', faults=True), witnesses=('failed open', 'failed write')))
     return out
